@@ -138,14 +138,15 @@ CLAIMED['C06'] = dict(
 
 CLAIMED['C13'] = dict(
     text='Lean theorems on LSB-first bit lists, for every operand length and value: ripple_add (unequal lengths, '
-         'half-adder tail) and cla_adder (every la_unit_len >= 1; look-ahead carry = rippled carry) return exactly '
-         'a+b+cin; the one-bit full adder and ripple chain of C03 are reused. Every generator (kogge_stone incl. '
-         'carry-in, ripple, cla, carrysave, fast_group_adder with Wallace/Dada, tree/signed-tree multipliers, '
-         'fused/generalized FMA, simple_mult/complex_mult cycle by cycle) is evaluated in the Lean Spec model against '
-         'exact integer arithmetic over mixed widths (exhaustive values for small total width, boundary values incl. '
-         'the most negative operand beyond), and the kogge_stone/ripple/cla netlists against the Lean models. PARTIAL: '
-         'kogge_stone, the tree reducers and the sequential multipliers have models/ties or oracle checks but no '
-         'general theorem yet.',
+         'half-adder tail), cla_adder (every la_unit_len >= 1; look-ahead carry = rippled carry) and kogge_stone '
+         '(parallel-prefix rounds compose carry windows; loop invariant over the prefix distance; incl. carry-in) '
+         'return exactly a+b+cin; the Wallace-style column compression shared by _basic_mult is proved exact with '
+         'termination in C03. Every generator (kogge_stone, ripple, cla, carrysave, fast_group_adder with '
+         'Wallace/Dada, tree/signed-tree multipliers, fused/generalized FMA, simple_mult/complex_mult cycle by cycle) '
+         'is evaluated in the Lean Spec model against exact integer arithmetic over mixed widths (exhaustive values '
+         'for small total width, boundary values incl. the most negative operand beyond), and the '
+         'kogge_stone/ripple/cla netlists against the Lean models. PARTIAL: the rtllib tree reducers (Dada schedule), '
+         'signed multiplier wrapper and the sequential multipliers have oracle checks but no general theorem.',
     design='4 C13',
     note=NOTE_COMMON,
     technique='Lean 4 proof by induction on bit lists / look-ahead units + exhaustive small-width correspondence')
